@@ -43,5 +43,5 @@ __CPROVER_assigns(__CPROVER_object_whole(self->fpowm_table_h), __tmcg_thrown, gh
 __CPROVER_ensures(__tmcg_thrown == 0 && V(self->fpowm_table_h[0]) == H)
 /* C01: ... for every exponent below q, i.e. with |q| entries (masking raises h to exponents of up to |q| bits; a
  * shorter table silently yields h^r = 0) */
-__CPROVER_ensures(ghost_pre_tab == (const void *)self->fpowm_table_h && ghost_pre_t == UF(bits)(Q))
+__CPROVER_ensures(ghost_pre_tab == __CPROVER_POINTER_OBJECT(self->fpowm_table_h) && ghost_pre_t == UF(bits)(Q))
 //@ end
